@@ -166,6 +166,32 @@ func ext5Class(err error) string {
 	return "other"
 }
 
+// ext5Bounded runs a call that has to return at once (a misuse call, a call
+// with a short context); hung reports that it had not returned after bound.
+func ext5Bounded(bound time.Duration, f func() error) (err error, hung bool) {
+	ch := make(chan error, 1)
+	go func() { ch <- f() }()
+	select {
+	case err = <-ch:
+		return err, false
+	case <-time.After(bound):
+		return nil, true
+	}
+}
+
+// ext5SyncShutdown is a Shutdown call on a server that is not started: it has
+// to return at once.
+func ext5SyncShutdown(srv dnsserver.Server, st string) map[string]any {
+	c, cancel := context.WithTimeout(context.Background(), time.Second)
+	defer cancel()
+	err, hung := ext5Bounded(ext5Grace+time.Second, func() error { return srv.Shutdown(c) })
+	res := ext5Class(err)
+	if hung {
+		res = "hang"
+	}
+	return map[string]any{"ev": "ShutdownSync", "res": res, "err": ext5Err(err), "st": st}
+}
+
 func ext5Err(err error) string {
 	if err == nil {
 		return ""
@@ -724,21 +750,23 @@ type ext5Scen struct {
 func ext5RunWorld(t *testing.T, lane ext5Lane, sc ext5Scen, rng *rand.Rand) (ev []map[string]any, ok bool) {
 	w := newExt5World()
 	bg := context.Background()
+	// fail ends a world that cannot be driven as planned (a server that does
+	// not serve, ...).  What has been recorded so far is still handed to TLC;
+	// the check script turns an aborted world without a verdict into exit 2.
 	fail := func(format string, a ...any) ([]map[string]any, bool) {
-		t.Errorf("ext5 %s %s k=%d: %s", lane.name, sc.kind, sc.k, fmt.Sprintf(format, a...))
-		return nil, false
+		why := fmt.Sprintf(format, a...)
+		t.Logf("ext5 %s %s k=%d: aborted: %s", lane.name, sc.kind, sc.k, why)
+		w.mu.Lock()
+		defer w.mu.Unlock()
+		w.emit(map[string]any{"ev": "Abort", "why": ext5Trim(why)})
+		return append([]map[string]any{}, w.ev...), false
 	}
 	w.emitL(map[string]any{"ev": "Reset", "tr": lane.name, "scen": sc.kind, "k": sc.k, "r": sc.r,
 		"d_ms": sc.d.Milliseconds()})
 
 	srv := lane.mk(w)
 	// misuse: Shutdown on a server that was never started
-	{
-		c, cancel := context.WithTimeout(bg, time.Second)
-		err := srv.Shutdown(c)
-		cancel()
-		w.emitL(map[string]any{"ev": "ShutdownSync", "res": ext5Class(err), "err": ext5Err(err), "st": "new"})
-	}
+	w.emitL(ext5SyncShutdown(srv, "new"))
 	started := false
 	for i := 0; i < 8 && !started; i++ {
 		err := srv.Start(bg)
@@ -771,8 +799,8 @@ func ext5RunWorld(t *testing.T, lane ext5Lane, sc ext5Scen, rng *rand.Rand) (ev 
 		}
 		w.mu.Unlock()
 		c, cancel := context.WithTimeout(bg, 500*time.Millisecond)
-		_ = srv.Shutdown(c)
-		cancel()
+		defer cancel()
+		_, _ = ext5Bounded(time.Second, func() error { return srv.Shutdown(c) })
 	}()
 	// misuse: Start on a started server
 	{
@@ -986,8 +1014,15 @@ func ext5RunWorld(t *testing.T, lane ext5Lane, sc ext5Scen, rng *rand.Rand) (ev 
 	releaseAll()
 	select {
 	case <-ret:
-	case <-time.After(20 * time.Second):
-		return fail("Shutdown did not return within 20 s after every handler was released")
+	case <-time.After(15 * time.Second):
+		// every handler has been released long ago: the call will not return
+		w.mu.Lock()
+		w.emit(map[string]any{"ev": "Stall", "after_ms": time.Since(t0).Milliseconds(), "running": w.running})
+		w.emit(map[string]any{"ev": "End", "handled": w.handled, "maxRunning": w.maxRun, "sent": nextq,
+			"inflight": sc.k, "inflight_answered": 0, "port_free": false})
+		ev = append([]map[string]any{}, w.ev...)
+		w.mu.Unlock()
+		return ev, true
 	}
 	for _, done := range racers {
 		<-done
@@ -1008,12 +1043,7 @@ func ext5RunWorld(t *testing.T, lane ext5Lane, sc ext5Scen, rng *rand.Rand) (ev 
 		<-done
 	}
 	// misuse: Shutdown once more
-	{
-		c, cancel := context.WithTimeout(bg, time.Second)
-		err := srv.Shutdown(c)
-		cancel()
-		w.emitL(map[string]any{"ev": "ShutdownSync", "res": ext5Class(err), "err": ext5Err(err), "st": "stopped"})
-	}
+	w.emitL(ext5SyncShutdown(srv, "stopped"))
 	// clients of requests whose answer got lost do not have to wait for their own time-out
 	time.Sleep(30 * time.Millisecond)
 	ccancel()
@@ -1100,14 +1130,15 @@ func TestVerifEXT5(t *testing.T) {
 				rng.Shuffle(len(scs), func(i, j int) { scs[i], scs[j] = scs[j], scs[i] })
 				for _, sc := range scs {
 					ev, ok := ext5RunWorld(t, lane, sc, rng)
-					if !ok {
-						return
-					}
 					flushMu.Lock()
 					for _, e := range ev {
 						out.Emit(e)
 					}
 					flushMu.Unlock()
+					if !ok {
+						// the rest of this transport's worlds would fail the same way
+						return
+					}
 				}
 			}
 		}(li, lane)
